@@ -141,7 +141,12 @@ def run_property(pid, tier):
             continue
         extra_ob.append(dict(name="lemma:%s" % ln0, backend="lean", status=st, detail=detail))
     if any(l.split(" ")[0] in leanback.NEEDS_EDGROUP for l in used_lemmas):
-        t2_used.append("M-edgroup (T2, cited): (E(F_Q), Edwards addition) is an abelian group (associativity: Bernstein-Lange 2007, Hales 2016); the ed_* lemmas are proved in Lean for any AddCommGroup")
+        # the ed_* lemmas are theorems about any AddCommGroup; that the curve points with the Edwards addition ARE one is
+        # itself a Lean theorem (EdwardsGroup.lean: eadd_assoc, eadd_comm, eadd_zero, eadd_neg, Curve.instAddCommGroup)
+        st = leanback.edwards_status()
+        ok = st["ok"] and "eadd_assoc" in st["theorems"] and any("instAddCommGroup" in t for t in st["theorems"])
+        extra_ob.append(dict(name="lean:the curve points form an abelian group under the Edwards addition (eadd_assoc, Curve.instAddCommGroup)", backend="lean",
+                             status="discharged" if ok else "undecided", detail="EdwardsGroup.lean" if ok else st.get("why", "")[:200]))
     for e in extra_ob:
         if e["status"] == "refuted":
             violations.append((e["backend"], dict(name=e["name"], kind=e["backend"], status="refuted", model=e.get("witness"),
@@ -256,6 +261,8 @@ def run_property(pid, tier):
         b["discharged"] += e["status"] == "discharged"
         b["solver_time_s"] = round(b["solver_time_s"] + e.get("time", 0.0), 2)
     samples = [{"obligation": o["name"], "status": o["status"], "depends_on": ["/".join(c) for c in o["core"]][:6]} for _, o in rel[:3]]
+    samples += [{"obligation": o["name"], "status": o["status"], "backend": "lean", "theorem": (o.get("extra") or {}).get("theorem")}
+                for _, o in rel if (o.get("extra") or {}).get("backend") == "lean"][:2]
     samples += [{"obligation": e["name"], "backend": e["backend"], "status": e["status"]} for e in extra_ob[:3]]
     if not samples:
         samples = [{"note": "no obligations generated"}]
@@ -288,6 +295,7 @@ def run_property(pid, tier):
             "known_findings_reproduced": known_lines,
             "bounded_standins": (list(getattr(cfg.extra, "standins", []) or []) if cfg.extra is not None else []) + thorough_standins,
             "closure_rounds": rounds,
+            "lean": lean_summary(),
             "t0_axiom_audit": {"kind": "bounded test of the library model against CPython (not a proof step)", "ok": aud.get("ok"),
                                "instances": aud.get("instances"), "schemas": len(aud.get("schemas", []))},
             "cvc5_crosscheck": cvc5_stats if tier == "thorough" else "thorough tier only",
@@ -354,6 +362,22 @@ def undecided_fallback(pid, seed, undecided, reg, repo):
             q = undecided[0][0]
             return dict(function=q, clause=None, why_undecided=str(undecided[0][2]), finding=r["mismatch"], input=r["mismatch"])
     return None
+
+
+def lean_summary():
+    from . import leanback
+    out = {}
+    try:
+        if "alg" in leanback._STATIC:
+            r, names = leanback._STATIC["alg"]
+            out["Algebra.lean"] = {"ok": r["ok"], "seconds": r["seconds"], "cached": r["cached"], "sha256_of_checked_text": r["sha"][:16], "theorems": len(names)}
+        if "edw" in leanback._STATIC:
+            st = leanback._STATIC["edw"]
+            out["Edwards (header + generated mirror of the real functions + EdwardsProofs + EdwardsExtra)"] = {
+                "ok": st["ok"], "seconds": st.get("seconds"), "cached": st.get("cached"), "sha256_of_checked_text": (st.get("sha") or "")[:16], "theorems": len(st.get("theorems", []))}
+    except Exception as e:
+        out["error"] = str(e)
+    return out
 
 
 def relevant(pid, q, r, o, needed, roots):
